@@ -109,6 +109,14 @@ fn cmd_drive(args: &[String]) -> i32 {
         viols.push(json!({"session": s.index, "what": rp.what, "replay": path, "requests": rp.sched.requests.len(),
                           "original_requests": rp.original_requests}));
     }
+    let mut racy_files = Vec::new();
+    for s in st.racy_evidence.iter().take(1) {
+        let path = format!("{replay_dir}/C19-{seed}-racy-{}.json", s.index);
+        let v = json!({"property": "C19", "engine": "sessim", "layer": "A1-racy", "seed": seed, "session": s,
+                       "what": "the same plan, run twice in fresh processes with every seam owned (entropy, layout, clock, environment, schedule), answered differently: the code under simulation is nondeterministic by itself (e.g. helper threads racing inside an expansion)"});
+        std::fs::write(&path, serde_json::to_string_pretty(&v).unwrap()).unwrap();
+        racy_files.push(json!({"session": s.index, "replay": path}));
+    }
     let nontrivial: u64 = st.key_contexts.values().filter(|v| **v >= 2).map(|v| *v as u64).sum();
     let samples: Vec<Value> = (start..start + n.min(2))
         .map(|i| {
@@ -141,6 +149,7 @@ fn cmd_drive(args: &[String]) -> i32 {
         "selfchecked_processes": st.selfchecked, "nondeterministic_sessions": st.nondeterministic,
         "errors": st.errors.iter().take(5).collect::<Vec<_>>(), "error_count": st.errors.len(),
         "divergent_sessions": st.divergences.len(),
+        "racy_findings": racy_files,
         "violations": viols, "digest": format!("{:016x}", st.digest), "samples": samples,
     });
     std::fs::write(&out, serde_json::to_string_pretty(&v).unwrap()).unwrap();
@@ -155,6 +164,33 @@ fn cmd_drive(args: &[String]) -> i32 {
 
 fn cmd_replay(args: &[String]) -> i32 {
     let path = &args[0];
+    // a racy finding: the plan itself, to be run several times
+    if let Ok(v) = std::fs::read_to_string(path).map_err(|e| e.to_string()).and_then(|t| serde_json::from_str::<Value>(&t).map_err(|e| e.to_string())) {
+        if v["layer"] == "A1-racy" {
+            let s: drive::Session = match serde_json::from_value(v["session"].clone()) {
+                Ok(s) => s,
+                Err(e) => {
+                    eprintln!("sessim replay: {e}");
+                    return 2;
+                }
+            };
+            return match drive::replay_racy(&ctx(args), &s, 24) {
+                Ok((true, rep)) => {
+                    println!("{}", serde_json::to_string_pretty(&rep).unwrap());
+                    println!("VIOLATION property=C19 replay={path}");
+                    1
+                }
+                Ok((false, rep)) => {
+                    println!("{}", serde_json::to_string_pretty(&rep).unwrap());
+                    0
+                }
+                Err(e) => {
+                    eprintln!("sessim replay: {e}");
+                    2
+                }
+            };
+        }
+    }
     let rp: Replay = match std::fs::read_to_string(path).map_err(|e| e.to_string()).and_then(|s| serde_json::from_str(&s).map_err(|e| e.to_string())) {
         Ok(r) => r,
         Err(e) => {
